@@ -84,6 +84,8 @@ type Action struct {
 	// message is still inside the send path ("" = none); MidSeq is its sequence number
 	Mid    string `json:"mid"`
 	MidSeq int    `json:"midSeq"`
+	// Empty: the unparsable numeric field (Sq / Integ = "nonnum") is present WITHOUT a value instead of holding letters
+	Empty bool `json:"empty"`
 }
 
 func (a *Action) norm() {
@@ -142,11 +144,19 @@ func Inbound(a *Action, peerID, ourID string, ts string) []byte {
 	case "ok":
 		fields = append(fields, F("34", strconv.Itoa(a.Seq)))
 	case "nonnum":
-		fields = append(fields, F("34", "abc"))
+		if a.Empty {
+			fields = append(fields, F("34", ""))
+		} else {
+			fields = append(fields, F("34", "abc"))
+		}
 	}
 	fields = append(fields, F("52", ts))
 	if a.Integ == "nonnum" {
-		fields = append(fields, F("369", "x1")) // LastMsgSeqNumProcessed is an int field of the header
+		if a.Empty {
+			fields = append(fields, F("369", ""))
+		} else {
+			fields = append(fields, F("369", "x1")) // LastMsgSeqNumProcessed is an int field of the header
+		}
 	}
 	fields = append(fields, body...)
 	return Damage(Frame(fields), a.Integ)
